@@ -174,7 +174,13 @@ fn path_to_uri(path: &Path) -> Option<Uri> {
 /// `line_number`. LSP positions count UTF-16 code units within the
 /// line.
 fn offset_to_lsp_position(src: &str, offset: usize, line_number: usize) -> Position {
-    let offset = offset.min(src.len());
+    // The position may come from a different text than `src`
+    // (e.g. a diagnostic in an imported file), so the offset need not
+    // be on a character boundary of `src`.
+    let mut offset = offset.min(src.len());
+    while !src.is_char_boundary(offset) {
+        offset -= 1;
+    }
     let line_start = src[..offset].rfind('\n').map_or(0, |i| i + 1);
     let character = src[line_start..offset].encode_utf16().count();
 
